@@ -114,6 +114,9 @@ pub fn preseal_melmint<C: ContentAddrStore>(state: UnsealedState<C>) -> Unsealed
     assert!(state.pools.val_iter().count() >= 2);
     #[cfg(melstf_verif)]
     crate::verif::phase("after-withdrawals", &state);
+    // a built-in pool that a user created before the rules enabled it holds no liquidity of its own, so
+    // it can be withdrawn empty; pegging needs every built-in pool to have reserves
+    let state = create_builtins(state);
     process_pegging(state)
 }
 
@@ -157,30 +160,19 @@ fn transactions_for_pool(transactions: &[Transaction], pool_key: &PoolKey) -> Ve
 fn create_builtins<C: ContentAddrStore>(mut state: UnsealedState<C>) -> UnsealedState<C> {
     let mut def = PoolState::new_empty();
     let _ = def.deposit(MICRO_CONVERTER * 1000, MICRO_CONVERTER * 1000);
-    if state
-        .pools
-        .get(&PoolKey::new(Denom::Mel, Denom::Sym))
-        .is_none()
-    {
+    // a pool without any liquidity left (everything withdrawn) is as good as absent
+    let absent = |pool: Option<PoolState>| pool.map_or(true, |pool| pool.liqs == 0);
+    if absent(state.pools.get(&PoolKey::new(Denom::Mel, Denom::Sym))) {
         state
             .pools
             .insert(PoolKey::new(Denom::Mel, Denom::Sym), def)
     }
-    if state
-        .pools
-        .get(&PoolKey::new(Denom::Mel, Denom::Erg))
-        .is_none()
-    {
+    if absent(state.pools.get(&PoolKey::new(Denom::Mel, Denom::Erg))) {
         state
             .pools
             .insert(PoolKey::new(Denom::Mel, Denom::Erg), def)
     }
-    if state.tip_902()
-        && state
-            .pools
-            .get(&PoolKey::new(Denom::Erg, Denom::Sym))
-            .is_none()
-    {
+    if state.tip_902() && absent(state.pools.get(&PoolKey::new(Denom::Erg, Denom::Sym))) {
         state
             .pools
             .insert(PoolKey::new(Denom::Erg, Denom::Sym), def)
